@@ -260,9 +260,11 @@ def export_binvox(voxel, axis_order="xzy"):
     result : bytes
       Representation according to binvox spec
     """
-    translate = voxel.translation
+    translate = np.array(voxel.translation, dtype=np.float64)
     scale = voxel.scale * (np.array(voxel.shape) - 1)
     (neg_scale,) = np.where(scale < 0)
+    # a flipped axis starts at what was its far end
+    translate[neg_scale] += scale[neg_scale]
     encoding = voxel.encoding.flip(neg_scale)
     scale = np.abs(scale)
     if not util.allclose(scale[0], scale[1:], 1e-6 * scale[0] + 1e-8):
